@@ -369,6 +369,27 @@ def decl_syntax_correspondence(ctx, model, toks_src, toks_out, src):
             want = "D " + D.collapse_entity(eo[key[1]]) + " | roundtrip-ok"
             if rep != want:
                 ctx.corr_problems.append(("decl-syntax", f"ENTITY {key[1]}: exppp `{want[2:]}` vs model `{rep[2:]}`", src)); return
+        ast_s = D.parse_schema(toks_src)
+        tdo = D.typedecl_slices(toks_out)
+        for key, d in ast_s["decls"].items():
+            if key[0] != "type":
+                continue
+            rep = model.ask("typedecl " + D.enc_typedecl(key[1], d))
+            ctx.hist("correspondence", "declaration syntax: type declaration")
+            want = "D " + D.collapse_typedecl(tdo[key[1]]) + " | roundtrip-ok"
+            if rep != want:
+                ctx.corr_problems.append(("decl-syntax", f"TYPE {key[1]}: exppp `{want[2:]}` vs model `{rep[2:]}`", src)); return
+        cb = D.const_block(toks_out)
+        if ast_s["consts"] and cb is not None:
+            names, text = D.collapse_consts(cb)           # exppp's order of the constants; their types from the source
+            if sorted(names) != sorted(ast_s["consts"]):
+                ctx.corr_problems.append(("decl-syntax", f"CONSTANT block: names {sorted(ast_s['consts'])} -> {sorted(names)}", src)); return
+            rep = model.ask(f"consts {len(names)} " + " ".join(f"{X.hx(n)} {D.enc_ty(ast_s['consts'][n][0])}" for n in names))
+            ctx.hist("correspondence", "declaration syntax: CONSTANT block")
+            if rep != "D " + text + " | roundtrip-ok":
+                ctx.corr_problems.append(("decl-syntax", f"CONSTANT block: exppp `{text}` vs model `{rep[2:]}`", src)); return
+        elif bool(ast_s["consts"]) != (cb is not None):
+            ctx.corr_problems.append(("decl-syntax", f"CONSTANT block printed: {cb is not None}, constants in the source: {len(ast_s['consts'])}", src)); return
         pout = D.P(toks_out); pout.schema()
         spans = {}
         for key, a0, b0 in pout.body_spans:
